@@ -815,3 +815,17 @@ Qed.
 
 Lemma rounds_quiesce s : forall c, enabled (grun s (rounds s (S (gmeasure s)))) c = false.
 Proof. unfold rounds. apply rounds_of_quiesce. lia. Qed.
+
+(* any schedule, continued fairly (round-robin) for long enough, ends with the outcomes the property demands *)
+Lemma fair_completion_outcomes st0 h sch i x : fresh st0 h -> distinct_prefixes h ->
+  let s := grun (ginit st0 h) sch in
+  nth_error (g_insts (grun s (rounds s (S (gmeasure s))))) i = Some x ->
+  (no_fault x -> (forall r, (r < i_W x)%nat -> i_pcs x r = PDone) /\ ((0 < i_W x)%nat -> i_meta x = true)) /\
+  (has_fault x -> (forall r, (r < i_W x)%nat -> i_pcs x r = PRaised) /\ i_meta x = false).
+Proof.
+  intros HF HD s Hx. subst s. rewrite <- grun_app in Hx.
+  apply (complete_schedule_outcomes st0 h _ i x HF HD Hx).
+  intros r. rewrite grun_app.
+  pose proof (rounds_quiesce (grun (ginit st0 h) sch) (i, r)) as H. unfold enabled in H.
+  destruct (snd (gstep _ (i, r))); [discriminate|reflexivity].
+Qed.
